@@ -949,9 +949,124 @@ fn polyops(rng: &mut Rng, iters: u64) {
     }
 }
 
+
+/// C11 probe (bounded stand-in: the relation store is not under contract): valid complete, single-large-prime and
+/// double-large-prime relations modulo a 62-bit n = P Q (square roots computed with the known factors) are fed to
+/// RelationSet::add in several orders, with signs and repeated primes; every relation it publishes must verify, and
+/// add_cycle must accept any cycle length
+fn relstore(rng: &mut Rng, iters: u64) {
+    use yamaquasi::relations::{Relation, RelationSet};
+    fn mulmod(a: u64, b: u64, m: u64) -> u64 { ((a as u128 * b as u128) % m as u128) as u64 }
+    fn powmod(mut b: u64, mut e: u64, m: u64) -> u64 { let mut r = 1 % m; b %= m; while e > 0 { if e & 1 == 1 { r = mulmod(r, b, m); } b = mulmod(b, b, m); e >>= 1; } r }
+    // Tonelli-Shanks
+    fn sqrt_p(a: u64, p: u64) -> Option<u64> {
+        let a = a % p;
+        if a == 0 { return Some(0); }
+        if powmod(a, (p - 1) / 2, p) != 1 { return None; }
+        let (mut q, mut s) = (p - 1, 0);
+        while q % 2 == 0 { q /= 2; s += 1; }
+        let mut z = 2; while powmod(z, (p - 1) / 2, p) != p - 1 { z += 1; }
+        let (mut m, mut c, mut tt, mut r) = (s, powmod(z, q, p), powmod(a, q, p), powmod(a, (q + 1) / 2, p));
+        while tt != 1 {
+            let mut i = 0; let mut t2 = tt; while t2 != 1 { t2 = mulmod(t2, t2, p); i += 1; }
+            let b = powmod(c, 1 << (m - i - 1), p);
+            m = i; c = mulmod(b, b, p); tt = mulmod(tt, c, p); r = mulmod(r, b, p);
+        }
+        Some(r)
+    }
+    let (pp, qq) = (2147483647u64, 2147483629u64);
+    let n64 = pp * qq;
+    let n = Uint::from(n64);
+    // x with x^2 = y (mod P Q) by CRT, if y is a square modulo both
+    let sqrt_n = |y: u64| -> Option<u64> {
+        let (a, b) = (sqrt_p(y % pp, pp)?, sqrt_p(y % qq, qq)?);
+        // x = a + P * ((b - a) / P mod Q)
+        let pinv = powmod(pp % qq, qq - 2, qq);
+        let k = mulmod((b + qq - a % qq) % qq, pinv, qq);
+        let x = ((a as u128 + pp as u128 * k as u128) % n64 as u128) as u64;
+        if mulmod(x, x, n64) == y % n64 { Some(x) } else { None }
+    };
+    let small = [2i64, 3, 5, 7, 11, 13];
+    let larges = [1009u64, 1013, 10007, 10009, 65537, 99991];
+    // a valid relation with the given cofactor: random small factors and sign until the value is a square
+    let mut make = |rng: &mut Rng, cofactor: u64, want_neg: Option<bool>| -> Relation {
+        loop {
+            let mut factors: Vec<(i64, u64)> = vec![];
+            let neg = want_neg.unwrap_or(rng.next() % 2 == 0);
+            if neg { factors.push((-1, 1)); }
+            let mut y = cofactor % n64;
+            for &p in &small {
+                let k = rng.next() % 4;
+                if k > 0 { factors.push((p, k)); y = mulmod(y, powmod(p as u64, k, n64), n64); }
+            }
+            if neg { y = n64 - y; }
+            if let Some(x) = sqrt_n(y) {
+                return Relation { x: Uint::from(x), cofactor, cyclelen: 1, factors };
+            }
+        }
+    };
+    let check = |rs: &RelationSet, what: &str| {
+        for (i, r) in rs.cycles.iter().enumerate() {
+            let ok = catch_unwind(AssertUnwindSafe(|| r.verify(&n))).unwrap_or(false);
+            if !ok || r.cofactor != 1 {
+                fail("relstore", format!("RelationSet modulo {n64}: published relation #{i} after {what} is not a congruence: x = {}, cofactor {}, factors {:?}", r.x, r.cofactor, r.factors));
+            }
+        }
+    };
+    for it in 0..(iters / 10).clamp(5, 60) {
+        let r = catch_unwind(AssertUnwindSafe(|| {
+            let mut rs = RelationSet::new(n, 8, 100000);
+            let p = larges[(rng.next() % 6) as usize];
+            let mut q = larges[(rng.next() % 6) as usize];
+            if it % 5 != 0 { while q == p { q = larges[(rng.next() % 6) as usize]; } }
+            let signs = match it % 4 { 0 => Some(true), 1 => Some(false), _ => None };
+            // complete relation
+            let r0 = make(rng, 1, signs);
+            assert!(r0.verify(&n));
+            rs.add(r0, None);
+            check(&rs, "a complete relation");
+            // two relations sharing the large prime p
+            let (r1, r2) = (make(rng, p, signs), make(rng, p, signs));
+            assert!(r1.verify(&n) && r2.verify(&n));
+            rs.add(r1, None);
+            rs.add(r2, None);
+            check(&rs, &format!("two relations with the large prime {p}"));
+            // a double large prime relation p q with single relations for p and q, in a rotating order
+            let rpq = make(rng, p * q, signs);
+            assert!(rpq.verify(&n));
+            let rq = make(rng, q, signs);
+            match it % 3 {
+                0 => { rs.add(rpq, Some((p, q))); rs.add(rq, None); }
+                1 => { rs.add(rq, None); rs.add(rpq, Some((q, p))); }
+                _ => { rs.add(rpq, Some((p, q))); let rp2 = make(rng, p, signs); rs.add(rp2, None); rs.add(rq, None); }
+            }
+            check(&rs, &format!("a double large prime relation {p} * {q} and matching single relations"));
+            // a chain of double relations closed by single ones
+            let ls: Vec<u64> = larges.iter().cloned().filter(|&l| l != p && l != q).collect();
+            for w in ls.windows(2) {
+                let rd = make(rng, w[0] * w[1], signs);
+                rs.add(rd, Some((w[0], w[1])));
+            }
+            let first = make(rng, ls[0], signs);
+            rs.add(first, None);
+            check(&rs, "a chain of double large prime relations");
+            // any cycle length is accepted by add_cycle
+            let mut long = make(rng, 1, signs);
+            long.cyclelen = 8 + it % 5;
+            rs.add_cycle(long);
+            check(&rs, "add_cycle with a long cycle");
+            rs.cycles.len()
+        }));
+        if r.is_err() {
+            fail("relstore", format!("RelationSet modulo {n64} (round {it}): panic while adding valid relations (debug_assert of a combined relation, or an index out of bounds)"));
+        }
+    }
+}
+
 pub fn run(case: &str, rng: &mut Rng, iters: u64) -> bool {
     match case {
         "pp1" => pp1_case(),
+        "relstore" => relstore(rng, iters),
         "polyops" => polyops(rng, iters),
         "chainmul1024" => chainmul1024(rng, iters),
         "pm1base" => pm1base_case(rng, iters),
